@@ -100,6 +100,17 @@ impl Property for C12 {
                 if noise % 5 == 1 {
                     let mut members = vec![a];
                     members.extend(partners);
+                    // sometimes a member of areal TYPE without area: a Rect collapsed to a segment or a point, a collinear Triangle
+                    if noise % 3 == 0 {
+                        if let Some(p0) = pool.first().copied() {
+                            let p1 = pool[(noise as usize / 7) % pool.len()];
+                            members.push(match (noise / 5) % 3 {
+                                0 => G::Rect(p0, (p1.0, p0.1)),
+                                1 => G::Rect(p1, p1),
+                                _ => G::Triangle(p0, p1, ((p0.0 + p1.0) / 2 * 2 - p0.0, (p0.1 + p1.1) / 2 * 2 - p0.1)),
+                            });
+                        }
+                    }
                     return Case { g: G::Coll(members), queries, xf, noise: 0, mixed: true, trusted: true };
                 }
                 Case { g: a, queries, xf, noise, mixed: false, trusted: true }
@@ -129,7 +140,7 @@ impl Property for C12 {
         json!({"g": wkt(&c.g), "queries": c.queries, "xf": c.xf})
     }
     fn check(c: &Case, obs: &mut Obs) {
-        let member_ok = |g: &G| match g { G::Coll(v) if c.mixed => v.iter().all(in_relate_domain), g => in_relate_domain(g) };
+        let member_ok = |g: &G| match g { G::Coll(v) if c.mixed => v.iter().all(|m| matches!(m, G::Rect(..) | G::Triangle(..)) || in_relate_domain(m)), g => in_relate_domain(g) };
         if !c.trusted && !member_ok(&c.g) {
             obs.label("skipped:out-of-domain");
             return;
@@ -199,7 +210,16 @@ impl Property for C12 {
                     let exact_back = back.x == pt.x() && back.y == pt.y();
                     match (exact_back, locate_f64(&loc, lx, ly)) {
                         (true, Some(l)) => {
-                            let areal = c.g.dim() == 2;
+                            // "has interior of dimension 2": some areal member with non-zero exact area (a collapsed Rect / collinear
+                            // Triangle is of areal type but has none)
+                            let areal = {
+                                let (mut p0, mut l0, mut po) = (vec![], vec![], vec![]);
+                                c.g.parts(&mut p0, &mut l0, &mut po);
+                                po.iter().any(|p| crate::refgeom::measure::twice_area_poly(p) != 0)
+                            };
+                            if areal && c.g.dim() == 2 && c.mixed {
+                                obs.label("mixed:areal-with-degenerate-or-lower-members");
+                            }
                             if l == Loc::E {
                                 obs.fail(format!("{name}|outside"), format!("returned {:?} = lattice ({lx}, {ly}) is in the exterior; {}", pt, ctx()));
                             } else if areal && l != Loc::I {
